@@ -167,7 +167,21 @@ func suiteC16(r *Run) {
 			hm = newHTTPMemGeneric(hs)
 		}
 
-		// one call per method
+		// one call per method; then (direct and in-process carriers) a second round on the SAME decorated
+		// description with a different transport-supplied interceptor: the composition must be per call
+		rounds := []string{tU}
+		if carrier != "http" {
+			alt := []string{"-", "p", "r"}
+			t2 := alt[rng.Intn(3)]
+			for t2 == tU {
+				t2 = alt[rng.Intn(3)]
+			}
+			rounds = append(rounds, t2, tU)
+		}
+		for round, tU := range rounds {
+		if round > 0 && carrier == "inproc" {
+			inCh.WithServerUnaryInterceptor(mkU("T", tU))
+		}
 		for i := 0; i < nU; i++ {
 			log = log[:0]
 			reqCount := int32(rng.Intn(50))
@@ -196,7 +210,7 @@ func suiteC16(r *Run) {
 			}
 			ans := strings.Join(log, " ") + " =>" + res
 			r.Op(sprintf("C16 unary svc=%s m=U%d t=%s decor=%s req=%d", hexOrDash([]byte(svcName)), i, tU, strings.Join(lspec, ","), reqCount), ans)
-			r.Eval(fmt.Sprint("u", carrier, tU, lspec, i), tU != "-" || levels > 0)
+			r.Eval(fmt.Sprint("u", carrier, tU, lspec, i, round), tU != "-" || levels > 0)
 			r.Count("carrier:" + carrier)
 			r.TracesOnImpl++
 			// oracle: transport first, then decorations outermost (latest) first, each once, until a short-circuit; handler iff all passed
@@ -205,6 +219,9 @@ func suiteC16(r *Run) {
 			stopped := false
 			if tU != "-" {
 				want = append(want, sprintf("T(%s,%d)", full, cnt))
+				if tU == "r" {
+					cnt++
+				}
 			}
 			for j := levels - 1; j >= 0 && !stopped; j-- {
 				switch lv[j].u {
@@ -224,8 +241,9 @@ func suiteC16(r *Run) {
 			}
 			if strings.Join(want, " ") != strings.Join(log, " ") {
 				r.Violate("server-intercept/unary-order-or-count", "dispatches every RPC through each applicable interceptor exactly once, the transport-supplied interceptor first and the decorating one next, then the original handler; the handler runs iff every interceptor calls onward; interceptors are told the correct full method name",
-					sprintf("%s U%d: log %q, expected %q", carrier, i, strings.Join(log, " "), strings.Join(want, " ")), caseDesc, ans)
+					sprintf("%s U%d (round %d, transport interceptor %s): log %q, expected %q", carrier, i, round, tU, strings.Join(log, " "), strings.Join(want, " ")), caseDesc, ans)
 			}
+		}
 		}
 		for i := 0; i < nS; i++ {
 			log = log[:0]
